@@ -243,6 +243,25 @@ def forkedBuildersCap {δ : Type} (cap : Nat) (pre : List δ) (sibs : List (List
 def forkedBuilders {δ : Type} (pre : List δ) (sibs : List (List δ)) : List (List δ) :=
   forkedBuildersCap builderInitCap pre sibs
 
+/-- overwrite the first entries of a slice by `ws`, one index assignment each: `all[j] = ws[j]` -/
+def overwritePrefix {δ : Type} (h : Heap δ) (s : Slice) (ws : List δ) : Heap δ :=
+  h.write ⟨s.arr, s.off, min ws.length s.len, 0⟩ (ws.take s.len)
+
+/-- A caller-owned descriptor slice `all` (len = cap = |all|) is spread into an EMPTY builder:
+    `b := New().ThenWith(all[:k]...)` (`adopt = false`: the code — `append(builder, input...)` copies;
+    `adopt = true`: the variant that returns the argument slice itself, NOT the code), then
+    `b2 := b.ThenWith…(ext)`, then the caller overwrites `all[j] = ws[j]`.  Returns what the builder `b`,
+    the builder `b2` and the caller's slice `all` hold afterwards. -/
+def spreadRun {δ : Type} (adopt : Bool) (all : List δ) (k : Nat) (ws : List δ) (ext : δ) : List (List δ) :=
+  let h0 : Heap δ := [all]
+  let allS : Slice := ⟨0, 0, all.length, all.length⟩
+  let sub : Slice := ⟨0, 0, min k all.length, all.length⟩          -- all[:k] keeps the capacity
+  let (h, b0) := newBuilder h0
+  let (h, b) := if adopt then (h, sub) else thenWith h b0 (h.read sub)
+  let (h, b2) := thenWith h b [ext]
+  let h := overwritePrefix h allS ws
+  [h.read b, h.read b2, h.read allS]
+
 /-! ## stream.go / streamForInterface.go -/
 
 /-- `Stream.Sort(fn)`: `result := Clone(); Sort(fn, *result)`.  (result, receiver afterwards) -/
@@ -452,6 +471,7 @@ def longRecs (n m k : Nat) : List Rec :=
   (List.range n).map (fun i => ⟨some (Int.ofNat ((i * m) % k)), some [97], some (Int.ofNat ((i / 3) % 2)), some [120]⟩)
 
 inductive Case
+  | spread (api : String) (all : List (Desc Rec)) (k : Nat) (ws : List (Desc Rec)) (ext : Desc Rec) (recs : List Rec)
   | ordf (api : String) (vals : List Flt)
   | nilcmp (api : String) (less : Option Rec → Option Rec → Bool) (recs : List (Option Rec))
   | fork (api : String) (pre : List (Desc Rec)) (sibs : List (List (Desc Rec))) (recs : List Rec)
@@ -470,6 +490,16 @@ def parseCase (line : String) : Option Case :=
       | some ds, some recs =>
         if ds.length ≥ 1 && (api = "sl" || api = "sb" || api = "tl" || api = "bs" || api = "slp" || api = "bsp")
         then some (.desc api ds recs) else none
+      | _, _ => none
+    | ["S", api, seq] =>
+      -- caller-owned descriptor slice spread into an empty builder: <all>/<k>/<overwrites or ->/<ext>
+      match seq.splitOn "/", allSome (toks.map parseRec) with
+      | [a, k, w, e], some recs =>
+        match parseStack a, k.toNat?, (if w = "-" then some [] else parseStack w), parseDesc e with
+        | some all, some k, some ws, some ext =>
+          if (api = "tl" || api = "bs") && k ≥ 1 && k ≤ all.length && ws.length ≤ all.length then
+            some (.spread api all k ws ext recs) else none
+        | _, _, _, _ => none
       | _, _ => none
     | ["F", api, seq] =>
       -- forked builders: <prefix>/<sibling>/<sibling>[/…]
@@ -528,6 +558,10 @@ def parseCase (line : String) : Option Case :=
 /-- the model's answer: the sequence of input positions in output order (`D`, `C`), or the values (`O`);
     `mutated` is appended when an input that must stay intact changed. -/
 def runCase : Case → String
+  | .spread _ all k ws ext recs =>
+    let input := tag recs
+    " | ".intercalate ((spreadRun false all k ws ext).map (fun ds =>
+      showIds (sortBySortDescriptors (ds.map liftDesc) input)))
   | .ordf api vals =>
     if api = "asc" then showFlts (sortOrderedAscending fltLt vals)
     else if api = "desc" then showFlts (sortOrderedDescending fltLt vals)
@@ -635,6 +669,9 @@ def parseIdsN (recs : List (Option Rec)) (obs : String) : Option (List Nat) :=
 
 def judgeCase (c : Case) (impl : String) : String :=
   match c with
+  | .spread _ all k ws ext recs =>
+    -- the builder holds a COPY of all[:k]; its extension adds ext; the caller's slice holds its own writes
+    judgeSegments [all.take k, all.take k ++ [ext], ws ++ all.drop ws.length] recs impl
   | .ordf api vals =>
     let want : Flt → Flt → Bool := if api = "asc" || api = "so+" then fltLt else (fun a b => fltLt b a)
     if !(impl.startsWith "[" && impl.endsWith "]") then "violation no sorted list returned: " ++ impl else
